@@ -127,26 +127,24 @@ def phaseRes (s : State) (i : Nat) : Res :=
   | .trying .. => .blocked
   | _ => .misuse
 
+/-- a client inside `Obtain` that nobody will help any more runs into its wait deadline -/
+def runOut (s : State) (i : Nat) : State × Res :=
+  match s.cl i with
+  | .trying _ _ _ dl => (setCl { s with wall := max s.wall dl } i .failed, .notObtained)
+  | _ => (s, phaseRes s i)
+
+/-- `begin` followed by the first `SET NX` attempt -/
+def enter (p : Params) (s : State) (i : Nat) (m : Mode) : State :=
+  attempt p (begin p s i m) i m s.nextTok (s.wall + p.wait)
+
 def exec (p : Params) (s : State) : Cmd → State × Res
   | .lock i =>
     match s.cl i with
-    | .idle =>
-      let s1 := begin p s i .lock
-      match s1.cl i with
-      | .trying m tok _ dl =>
-        let s2 := attempt p s1 i m tok dl
-        match s2.cl i with
-        | .trying _ _ _ dl' => let s3 := setCl { s2 with wall := max s2.wall dl' } i .failed; (s3, .notObtained)
-        | _ => (s2, phaseRes s2 i)
-      | _ => (s1, .misuse)
+    | .idle => runOut (enter p s i .lock) i
     | _ => (s, .misuse)
   | .tryLock i =>
     match s.cl i with
-    | .idle =>
-      let s1 := begin p s i .try
-      match s1.cl i with
-      | .trying m tok _ dl => let s2 := attempt p s1 i m tok dl; (s2, phaseRes s2 i)
-      | _ => (s1, .misuse)
+    | .idle => let s2 := enter p s i .try; (s2, phaseRes s2 i)
     | _ => (s, .misuse)
   | .unlock i =>
     match s.cl i with
@@ -156,23 +154,15 @@ def exec (p : Params) (s : State) : Cmd → State × Res
   | .ff dt => ({ s with now := s.now + dt }, .advanced)
   | .lockAsync i =>
     match s.cl i with
-    | .idle =>
-      let s1 := begin p s i .lock
-      match s1.cl i with
-      | .trying m tok _ dl => let s2 := attempt p s1 i m tok dl; (s2, phaseRes s2 i)
-      | _ => (s1, .misuse)
+    | .idle => let s2 := enter p s i .lock; (s2, phaseRes s2 i)
     | _ => (s, .misuse)
   | .join i =>
     match s.cl i with
     | .trying m tok na dl =>
       let s1 := { s with wall := max s.wall na }
-      if s1.wall < dl then
-        let s2 := attempt p s1 i m tok dl
-        match s2.cl i with
-        | .trying _ _ _ dl' => (setCl { s2 with wall := max s2.wall dl' } i .failed, .notObtained)
-        | _ => (s2, phaseRes s2 i)
+      if s1.wall < dl then runOut (attempt p s1 i m tok dl) i
       else (setCl { s with wall := max s.wall dl } i .failed, .notObtained)
-    | _ => (s, phaseRes s i)
+    | _ => (s, .misuse)
   | .observe i =>
     (s, match s.cl i with
       | .holding _ => if s.ctxCancelled i then .ctxCancelled else .ctxLive
